@@ -21,6 +21,7 @@ import (
 	"github.com/gethiox/HIDI/internal/pkg/midi"
 	"github.com/gethiox/HIDI/internal/pkg/midi/device/config"
 	"github.com/holoplot/go-evdev"
+	"github.com/realbucksavage/openrgb-go"
 )
 
 func init() {
@@ -184,6 +185,14 @@ func (r *vrunner) line(toks []string) (string, bool) {
 		return "", false
 	case "cfg.action":
 		r.cfg.ActionMapping[evdev.EvCode(atoi(toks[1]))] = config.Action(subTok(toks[2]))
+		return "", false
+	case "cfg.colors":
+		// cfg.colors <white> <black> <c> <unavailable> <active> <activeExternal>   (24-bit rrggbb as decimal)
+		col := func(i int) openrgb.Color {
+			v := atoi(toks[i])
+			return openrgb.Color{Red: byte(v >> 16), Green: byte(v >> 8), Blue: byte(v)}
+		}
+		r.cfg.OpenRGB.Colors = config.Colors{White: col(1), Black: col(2), C: col(3), Unavailable: col(4), Active: col(5), ActiveExternal: col(6)}
 		return "", false
 	case "cfg.exit":
 		r.cfg.ExitSequence = nil
